@@ -123,6 +123,7 @@ struct SpaceStats {
     enumerated_complete: bool,
     enumerated: bool,
     enum_note: String,
+    wall_s: f64,
 }
 
 /// `lsverif worker <prop> <tier> <seed> <prng> <index> <of> <workdir> [digest]`
@@ -149,6 +150,7 @@ pub fn worker_main(reg: &Registry, args: &[String]) -> i32 {
 
     'spaces: for (si, space) in prop.spaces.iter().enumerate() {
         let mut st = SpaceStats::default();
+        let t_space = Instant::now();
         let wseed = worker_seed(seed, prop.id, si, index);
         // the list of (case seed, optional explicit vector)
         let plan = (space.plan)(tier);
@@ -258,6 +260,7 @@ pub fn worker_main(reg: &Registry, args: &[String]) -> i32 {
                 }
             }
         }
+        st.wall_s = t_space.elapsed().as_secs_f64();
         if failure.is_none() {
             stats.push(st);
         }
@@ -277,7 +280,7 @@ pub fn worker_main(reg: &Registry, args: &[String]) -> i32 {
             json!({
                 "space": prop.spaces[i].name, "evaluations": s.evaluations, "nontrivial": s.nontrivial,
                 "labels": s.labels, "counters": s.counters, "samples": s.samples,
-                "enumerated": s.enumerated, "complete": s.enumerated_complete, "enum_note": s.enum_note,
+                "enumerated": s.enumerated, "complete": s.enumerated_complete, "enum_note": s.enum_note, "wall_s": s.wall_s,
             })
         })
         .collect();
@@ -854,6 +857,8 @@ pub fn check_main(reg: &Registry, id: &str, tier: Tier) -> i32 {
                     let e = space_json.entry(name.clone()).or_insert(json!({"evaluations": 0u64, "nontrivial": 0u64}));
                     e["evaluations"] = json!(e["evaluations"].as_u64().unwrap_or(0) + ev);
                     e["nontrivial"] = json!(e["nontrivial"].as_u64().unwrap_or(0) + s["nontrivial"].as_u64().unwrap_or(0));
+                    let w_old = e.get("max_worker_wall_s").and_then(|x| x.as_f64()).unwrap_or(0.0);
+                    e["max_worker_wall_s"] = json!(w_old.max(s["wall_s"].as_f64().unwrap_or(0.0)));
                     if s["enumerated"].as_bool().unwrap_or(false) {
                         let x = exhaustive_spaces.entry(name.clone()).or_insert((s["complete"].as_bool().unwrap_or(false), 0, s["enum_note"].as_str().unwrap_or("").to_string()));
                         x.1 += ev;
